@@ -353,7 +353,7 @@ func Run(prog *ssa.Program, entry *ssa.Function, cfg Config, models *modelIndex)
 			continue
 		}
 		kept = append(kept, v)
-		rp := &Replay{Vars: v.Vars, Choices: v.Choices}
+		rp := &Replay{Vars: v.Vars, Choices: v.Choices, Oracle: v.Oracle}
 		rw.runPath(entry, nil, rp)
 		for _, l := range rp.failed {
 			if SameFailure(v.Label, l) {
@@ -408,13 +408,23 @@ func atSuffix(s string) string {
 }
 
 // ReplayConcrete re-executes a harness with concrete values.
-func ReplayConcrete(prog *ssa.Program, entry *ssa.Function, vars map[string]int64, choices []int64) []string {
+func ReplayConcrete(prog *ssa.Program, entry *ssa.Function, vars map[string]int64, choices, oracle []int64) []string {
 	cfg := DefaultConfig()
 	w := newWorker(prog, &cfg, entry.Name(), NewModelIndex(prog), false)
-	rp := &Replay{Vars: vars, Choices: choices}
+	rp := &Replay{Vars: vars, Choices: choices, Oracle: oracle}
 	w.runPath(entry, nil, rp)
 	for why := range w.incompl {
 		rp.failed = append(rp.failed, "INCOMPLETE: "+why)
 	}
 	return rp.failed
+}
+
+// ReplaySymbolic re-runs one recorded path symbolically (debugging aid).
+func ReplaySymbolic(prog *ssa.Program, entry *ssa.Function, trace []int64, workDir string) {
+	cfg := DefaultConfig()
+	cfg.WorkDir = workDir
+	w := newWorker(prog, &cfg, entry.Name(), NewModelIndex(prog), true)
+	defer w.sol.close()
+	w.runPath(entry, trace, nil)
+	fmt.Fprintln(os.Stderr, "incomplete:", w.incompl, "violations:", len(w.violations))
 }
